@@ -1,1 +1,224 @@
 // Kani harnesses compiled inside rs-matter/src/sc/case/casep.rs (module `verif_kani`).
+
+mod c01 {
+    use super::*;
+    use crate::crypto::backend::dummy::DummyCrypto;
+    use crate::crypto::{
+        CanonEcPointRef, CanonEcScalarRef, CanonPkcSecretKeyRef, CanonUint320Ref, CryptoSensitiveRef,
+        PKC_CANON_SECRET_KEY_LEN, PKC_SHARED_SECRET_LEN, PKC_SIGNATURE_LEN,
+    };
+    use core::cell::Cell;
+
+    const CERT_LEN: usize = 3;
+
+    /// What the signature has to cover and what it has to be checked with.
+    struct Expect {
+        noc: [u8; CERT_LEN],
+        icac: Option<[u8; CERT_LEN]>,
+        peer_key: [u8; PKC_CANON_PUBLIC_KEY_LEN],
+        our_key: [u8; PKC_CANON_PUBLIC_KEY_LEN],
+        signature: [u8; PKC_SIGNATURE_LEN],
+    }
+
+    struct MockCrypto {
+        import_ok: bool,
+        /// outcome of `verify`: `None` = the primitive fails
+        verdict: Option<bool>,
+        expect: Expect,
+        imports: Cell<u8>,
+        imported: Cell<[u8; PKC_CANON_PUBLIC_KEY_LEN]>,
+        verifies: Cell<u8>,
+        tbs_as_expected: Cell<bool>,
+        signature_as_given: Cell<bool>,
+    }
+
+    struct MockKey<'a> {
+        owner: &'a MockCrypto,
+    }
+
+    struct MockSecret<'a>(core::marker::PhantomData<&'a ()>);
+
+    impl Crypto for MockCrypto {
+        type Rand<'a> = DummyCrypto where Self: 'a;
+        type WeakRand<'a> = DummyCrypto where Self: 'a;
+        type Hash<'a> = DummyCrypto where Self: 'a;
+        type Hash1<'a> = DummyCrypto where Self: 'a;
+        type Hmac<'a> = DummyCrypto where Self: 'a;
+        type Kdf<'a> = DummyCrypto where Self: 'a;
+        type PbKdf<'a> = DummyCrypto where Self: 'a;
+        type Aead<'a> = DummyCrypto where Self: 'a;
+        type PublicKey<'a> = MockKey<'a> where Self: 'a;
+        type SecretKey<'a> = MockSecret<'a> where Self: 'a;
+        type SigningSecretKey<'a> = MockSecret<'a> where Self: 'a;
+        type EcScalar<'a> = DummyCrypto where Self: 'a;
+        type EcPoint<'a> = DummyCrypto where Self: 'a;
+
+        fn rand(&self) -> Result<Self::Rand<'_>, Error> { unimplemented!() }
+        fn weak_rand(&self) -> Result<Self::WeakRand<'_>, Error> { unimplemented!() }
+        fn hash(&self) -> Result<Self::Hash<'_>, Error> { unimplemented!() }
+        fn hash1(&self) -> Result<Self::Hash1<'_>, Error> { unimplemented!() }
+        fn hmac<const KEY_LEN: usize>(&self, _key: CryptoSensitiveRef<'_, KEY_LEN>) -> Result<Self::Hmac<'_>, Error> { unimplemented!() }
+        fn kdf(&self) -> Result<Self::Kdf<'_>, Error> { unimplemented!() }
+        fn pbkdf(&self) -> Result<Self::PbKdf<'_>, Error> { unimplemented!() }
+        fn aead(&self) -> Result<Self::Aead<'_>, Error> { unimplemented!() }
+
+        fn pub_key(&self, key: CanonPkcPublicKeyRef<'_>) -> Result<Self::PublicKey<'_>, Error> {
+            self.imports.set(self.imports.get().saturating_add(1));
+            self.imported.set(*key.access());
+            if self.import_ok {
+                Ok(MockKey { owner: self })
+            } else {
+                Err(ErrorCode::InvalidData.into())
+            }
+        }
+
+        fn secret_key(&self, _key: CanonPkcSecretKeyRef<'_>) -> Result<Self::SecretKey<'_>, Error> { unimplemented!() }
+        fn generate_secret_key(&self) -> Result<Self::SecretKey<'_>, Error> { unimplemented!() }
+        fn singleton_singing_secret_key(&self) -> Result<Self::SigningSecretKey<'_>, Error> { unimplemented!() }
+        fn ec_scalar(&self, _scalar: CanonEcScalarRef<'_>) -> Result<Self::EcScalar<'_>, Error> { unimplemented!() }
+        fn ec_scalar_mod_p(&self, _uint: CanonUint320Ref<'_>) -> Result<Self::EcScalar<'_>, Error> { unimplemented!() }
+        fn generate_ec_scalar(&self) -> Result<Self::EcScalar<'_>, Error> { unimplemented!() }
+        fn ec_point(&self, _point: CanonEcPointRef<'_>) -> Result<Self::EcPoint<'_>, Error> { unimplemented!() }
+        fn ec_generator_point(&self) -> Result<Self::EcPoint<'_>, Error> { unimplemented!() }
+    }
+
+    /// Is `data` the Matter TLV encoding of  struct { 1: noc, [2: icac,] 3: peer key, 4: our key }  and nothing
+    /// else?  (anonymous structure 0x15 ... end-of-container 0x18; an octet string with a context tag and a
+    /// one-byte length is  0x30 tag len bytes.)  The expected bytes are laid out by hand, not with the writer.
+    fn tbs_is(data: &[u8], e: &Expect) -> bool {
+        const FIELD: usize = 3 + PKC_CANON_PUBLIC_KEY_LEN;
+        let mut x = [0u8; 2 + 2 * (3 + CERT_LEN) + 2 * FIELD];
+        let mut n = 0;
+        x[n] = 0x15;
+        n += 1;
+        x[n] = 0x30;
+        x[n + 1] = 1;
+        x[n + 2] = CERT_LEN as u8;
+        x[n + 3..n + 3 + CERT_LEN].copy_from_slice(&e.noc);
+        n += 3 + CERT_LEN;
+        if let Some(icac) = &e.icac {
+            x[n] = 0x30;
+            x[n + 1] = 2;
+            x[n + 2] = CERT_LEN as u8;
+            x[n + 3..n + 3 + CERT_LEN].copy_from_slice(icac);
+            n += 3 + CERT_LEN;
+        }
+        x[n] = 0x30;
+        x[n + 1] = 3;
+        x[n + 2] = PKC_CANON_PUBLIC_KEY_LEN as u8;
+        x[n + 3..n + FIELD].copy_from_slice(&e.peer_key);
+        n += FIELD;
+        x[n] = 0x30;
+        x[n + 1] = 4;
+        x[n + 2] = PKC_CANON_PUBLIC_KEY_LEN as u8;
+        x[n + 3..n + FIELD].copy_from_slice(&e.our_key);
+        n += FIELD;
+        x[n] = 0x18;
+        n += 1;
+        if data.len() != n {
+            return false;
+        }
+        // every position: an arbitrary one is compared
+        let i: usize = kani::any();
+        kani::assume(i < n);
+        data[i] == x[i]
+    }
+
+    impl<'a> PublicKey<'a, PKC_CANON_PUBLIC_KEY_LEN, PKC_SIGNATURE_LEN> for MockKey<'a> {
+        fn verify(&self, data: &[u8], signature: CryptoSensitiveRef<PKC_SIGNATURE_LEN>) -> Result<bool, Error> {
+            let o = self.owner;
+            o.verifies.set(o.verifies.get().saturating_add(1));
+            o.tbs_as_expected.set(tbs_is(data, &o.expect));
+            o.signature_as_given.set(*signature.access() == o.expect.signature);
+            match o.verdict {
+                Some(b) => Ok(b),
+                None => Err(ErrorCode::InvalidData.into()),
+            }
+        }
+
+        fn write_canon(&self, _key: &mut CryptoSensitive<PKC_CANON_PUBLIC_KEY_LEN>) -> Result<(), Error> { unimplemented!() }
+    }
+
+    impl<'a> SigningSecretKey<'a, PKC_CANON_PUBLIC_KEY_LEN, PKC_SIGNATURE_LEN> for MockSecret<'a> {
+        type PublicKey<'s> = MockKey<'s> where Self: 's;
+
+        fn csr<'s>(&self, _buf: &'s mut [u8]) -> Result<&'s [u8], Error> { unimplemented!() }
+        fn pub_key(&self) -> Result<Self::PublicKey<'a>, Error> { unimplemented!() }
+        fn sign(&self, _data: &[u8], _signature: &mut CryptoSensitive<PKC_SIGNATURE_LEN>) -> Result<(), Error> { unimplemented!() }
+    }
+
+    impl<'a> SecretKey<'a, PKC_CANON_SECRET_KEY_LEN, PKC_CANON_PUBLIC_KEY_LEN, PKC_SIGNATURE_LEN, PKC_SHARED_SECRET_LEN> for MockSecret<'a> {
+        fn derive_shared_secret(&self, _peer: &Self::PublicKey<'a>, _out: &mut CryptoSensitive<PKC_SHARED_SECRET_LEN>) -> Result<(), Error> { unimplemented!() }
+        fn write_canon(&self, _key: &mut CryptoSensitive<PKC_CANON_SECRET_KEY_LEN>) -> Result<(), Error> { unimplemented!() }
+    }
+
+    // NOT REGISTERED - DOES NOT CLOSE: the byte-by-byte TLV writer (`TLVWrite::write_raw_data`, ~150 checked writes)
+    // exhausts 12 GB in CBMC's propositional reduction at the unwinding the 65-byte keys need (67). The harness is
+    // kept for a machine with more memory; it is compiled only with `--cfg verif_c01_tbs`.
+    // TIER: thorough
+    // KIND: bounded (NOC and ICAC byte strings of 3 bytes, scratch buffer of 192 bytes; keys, signature and every primitive outcome unbounded)
+    #[cfg(verif_c01_tbs)]
+    #[kani::proof]
+    #[kani::unwind(67)]
+    #[kani::stub(crate::cert::CertRef::pubkey, crate::cert::verif_kani::c19::pf_pubkey)]
+    fn c01_validate_peer_tbs_signature_contract() {
+        let noc: [u8; CERT_LEN] = kani::any();
+        let icac: [u8; CERT_LEN] = kani::any();
+        let with_icac: bool = kani::any();
+        let peer_key: [u8; PKC_CANON_PUBLIC_KEY_LEN] = kani::any();
+        let our_key: [u8; PKC_CANON_PUBLIC_KEY_LEN] = kani::any();
+        let signature: [u8; PKC_SIGNATURE_LEN] = kani::any();
+        // the peer's NOC in the parsed form of cert.rs: byte 42 = outcome of `pubkey()` (0 fails, 1 short, else the
+        // 65 bytes of the record itself)
+        let noc_pf: [u8; 65] = kani::any();
+        let noc_cert = CertRef::new(TLVElement::new(&noc_pf));
+
+        let crypto = MockCrypto {
+            import_ok: kani::any(),
+            verdict: kani::any(),
+            expect: Expect { noc, icac: if with_icac { Some(icac) } else { None }, peer_key, our_key, signature },
+            imports: Cell::new(0),
+            imported: Cell::new([0; PKC_CANON_PUBLIC_KEY_LEN]),
+            verifies: Cell::new(0),
+            tbs_as_expected: Cell::new(false),
+            signature_as_given: Cell::new(false),
+        };
+
+        let mut case = CaseP::<MockCrypto>::new();
+        case.peer_pub_key = CanonPkcPublicKey::from(peer_key);
+        case.our_pub_key = CanonPkcPublicKey::from(our_key);
+
+        // a scratch buffer that is large enough for the structure (at most 152 bytes here)
+        let mut big = [0u8; 192];
+        let tmp: &mut [u8] = &mut big[..];
+
+        let r = case.validate_peer_tbs_signature(
+            &crypto,
+            &noc,
+            if with_icac { Some(&icac[..]) } else { None },
+            &noc_cert,
+            CanonPkcSignatureRef::new(&signature),
+            tmp,
+        );
+        let ok = r.is_ok();
+
+        let key_ok = noc_pf[42] > 1;
+        kani::assert(
+            ok == (key_ok && crypto.import_ok && crypto.verdict == Some(true)),
+            "C01.tbs_signature.ok_iff_primitive_verified"
+        );
+        kani::assert(!ok || (crypto.verifies.get() == 1 && crypto.verdict == Some(true)), "C01.tbs_signature.ok_implies_verify_returned_true");
+        kani::assert(!ok || (crypto.imports.get() == 1 && crypto.imported.get() == noc_pf), "C01.tbs_signature.checked_under_the_nocs_public_key");
+        kani::assert(!ok || crypto.signature_as_given.get(), "C01.tbs_signature.the_given_signature_is_checked");
+        kani::assert(!ok || crypto.tbs_as_expected.get(), "C01.tbs_signature.covers_noc_icac_peer_key_own_key_in_order");
+        kani::assert(crypto.verifies.get() == 0 || crypto.tbs_as_expected.get(), "C01.tbs_signature.never_verifies_anything_else");
+        if key_ok && crypto.import_ok && crypto.verdict == Some(false) {
+            kani::assert(matches!(&r, Err(e) if e.code() == ErrorCode::Invalid), "C01.tbs_signature.bad_signature_is_invalid");
+        }
+
+        kani::cover!(ok && with_icac, "accepted with ICAC");
+        kani::cover!(ok && !with_icac, "accepted without ICAC");
+        kani::cover!(!ok && crypto.verdict == Some(false) && crypto.verifies.get() == 1, "wrong signature refused");
+        kani::cover!(!ok && !key_ok, "NOC without usable public key refused");
+    }
+}
